@@ -634,7 +634,7 @@ func (s *Slice) checkWithHardRecovery(node *NodeInfo, downAfterNoAlive int, seco
 	masterStatus, err := s.GetMasterStatus()
 	if err != nil || masterStatus == StatusDown {
 		log.Warn("[ns:%s, %s:%s] check slave status with hard strategy, Get master status: %s, get master err: %v, duration: %v", s.Namespace, s.Cfg.Name, node.Address, masterStatus.String(), err, time.Since(start))
-		if conn != nil && node.IsStatusDown() {
+		if conn != nil && node.IsStatusDown() && strategy.AllowRecovery() {
 			node.SetStatusUp()
 			log.Warn("[ns:%s, %s:%s] check slave status with hard strategy, Marked as StatusUp success, Slave recovered from down, (case master down), duration: %v", s.Namespace, s.Cfg.Name, node.Address, time.Since(start))
 		}
